@@ -4,7 +4,7 @@ For a seed that appears in several result files the last line wins (results afte
 import json, os, shutil, sys
 
 ROOT = os.path.dirname(os.path.dirname(os.path.abspath(__file__)))
-SRCS = ["/tmp/seed/out", "/tmp/seed2/out", "/tmp/seed3/out", os.path.join(ROOT, "seeded")]   # where a seed's patch / demonstration / meta may be found
+SRCS = ["/tmp/seed/out", "/tmp/seed2/out", "/tmp/seed3/out", "/tmp/seed4/out", "/tmp/seed5/out", os.path.join(ROOT, "seeded")]   # where a seed's patch / demonstration / meta may be found
 
 
 def main():
@@ -18,7 +18,7 @@ def main():
             prev = res.get(d["seed"], {})
             merged = dict(prev)
             merged.update(d)           # later runs (--no-confirm) keep the earlier confirmation fields
-            if d.get("check_rc") in (0, 1):
+            if d.get("check_rc") in (0, 1, 2):      # exit 2 on a seeded change: not detected
                 merged["history"] = prev.get("history", []) + [bool(d.get("detected"))]
             res[d["seed"]] = merged
     rows = []
@@ -43,7 +43,10 @@ def main():
         meta["detected"] = bool(d.get("detected"))
         meta["divergence_keys"] = d.get("divergence_keys", [])
         hist = d.get("history", [])
-        meta["missed_before_strengthening"] = bool(hist) and not hist[0]
+        meta["missed_before_strengthening"] = (bool(hist) and not hist[0]) or str(d.get("first", "")).startswith("missed")
+        for extra in ("patch.pinned.diff", "demo.pinned_test.go.txt"):      # a change ported to a repaired tree keeps its original form
+            if os.path.isfile(os.path.join(src, extra)) and os.path.abspath(src) != os.path.abspath(dst):
+                shutil.copy(os.path.join(src, extra), dst)
         json.dump(meta, open(os.path.join(dst, "meta.json"), "w"), indent=1)
         rows.append((seed, meta.get("summary", "")[:160].replace("\n", " "), meta.get("needs", "")[:160].replace("\n", " "),
                      ("caught" + (" (after strengthening the check)" if meta["missed_before_strengthening"] else "") + ": " + ", ".join(meta["divergence_keys"])) if meta["detected"] else "MISSED (exit %s)" % d.get("check_rc")))
